@@ -3,9 +3,17 @@
 //! and reports them (addresses mapped to the abstract candidate addresses through the addresses the debuggee
 //! prints about itself), together with `watchpoint_list()` and the companion breakpoints.
 //!
+//! Thread creation comes in three request forms: `clone` (the notifications arrive in the order the kernel picks),
+//! `clone cf` (same, the usual clone-event-first order is expected and counted) and `clone sf` (the harness's
+//! `waitpid` interposer holds the parent's PTRACE_EVENT_CLONE back until the child's own first stop has been handed
+//! to the tracer: the rare, kernel-permitted order in which the PTRACE_EVENT_STOP arm has to equip the new thread).
+//! `restart` restarts the running debuggee; `exitrerun` (debuggee c14x, which exits inside the scope of its locals)
+//! lets it exit with local watchpoints still set and runs it again.
+//!
 //! Abstract program shipped in the request lines: candidate k lives at abstract address 4096*k
 //! (1..6 = globals G1..G6 of 8,4,2,1,8,8 bytes; 11..15 = locals l1..l5 of `scoped`, 8 bytes each, whose common
 //! end-of-scope companion has the abstract address SCOPE_END).
+use crate::live::ipose;
 use crate::util::*;
 use bugstalker::debugger::address::RelocatedAddress;
 use bugstalker::debugger::process::Child;
@@ -18,8 +26,7 @@ use nix::unistd::Pid;
 use serde_json::json;
 use std::cell::RefCell;
 use std::collections::HashMap;
-use std::io::{BufRead, BufReader, Read, Write};
-use std::os::fd::FromRawFd;
+use std::io::{BufRead, BufReader};
 use std::path::PathBuf;
 use std::rc::Rc;
 use std::sync::{Arc, Mutex};
@@ -34,17 +41,20 @@ const WRITES: &[(u64, u64, u64)] = &[(1, 1, 101), (2, 2, 102), (3, 3, 103), (4, 
 /// address that is not aligned to the *previous* owner's length makes the kernel reject the DR_i write
 /// (finding `unaligned-slot-reuse`, see corpus/C14/*.witness); the model does not cover that kernel rule.
 const GEN_GLOBALS: &[(u64, &str, u64)] = &[(1, "G1", 8), (2, "G2", 4), (5, "G5", 8), (6, "G6", 8)];
+/// c14w: the scope of the locals ends normally; c14x: the same program, but it exits inside that scope
+const PROGS: &[&str] = &["c14w", "c14x"];
 
 pub fn is_live_op(t: &[&str]) -> bool {
-    matches!(t.first().copied(), Some("wmem" | "wexpr" | "rmnum" | "rmaddr" | "rmexpr" | "clone" | "texit" | "hit" | "scopeend" | "restart" | "go" | "wphase"))
+    matches!(t.first().copied(), Some("wmem" | "wexpr" | "rmnum" | "rmaddr" | "rmexpr" | "clone" | "texit" | "hit" | "scopeend" | "restart" | "exitrerun" | "go" | "wphase"))
 }
 
 fn root() -> PathBuf { PathBuf::from(concat!(env!("CARGO_MANIFEST_DIR"), "/..")) }
 
 /// compile the debuggee on demand (parent process, before any worker exists)
-fn ensure_prog() -> Result<PathBuf, String> {
-    let src = root().join("progs-src/c14w.rs");
-    let bin = root().join("progs/c14w");
+fn ensure_prog(name: &str) -> Result<PathBuf, String> {
+    if !PROGS.contains(&name) { return Err(format!("unknown debuggee {name}")); }
+    let src = root().join(format!("progs-src/{name}.rs"));
+    let bin = root().join(format!("progs/{name}"));
     let fresh = match (std::fs::metadata(&src), std::fs::metadata(&bin)) {
         (Ok(s), Ok(b)) => b.modified().unwrap() >= s.modified().unwrap(),
         _ => false,
@@ -116,6 +126,63 @@ pub fn hw_delivers() -> bool {
     }
 }
 
+/// Independent probe of the kernel assumption of the model (`kernelNewThread`; raw ptrace on a forked child, no
+/// debugger code): a thread created while its parent has a data breakpoint set shows, through PTRACE_PEEKUSER,
+/// DR0 = 0 and DR7 = the parent's DR7.  Returns (parent DR0, parent DR7, new thread's DR0, new thread's DR7).
+pub fn kernel_new_thread_probe() -> Option<(u64, u64, u64, u64)> {
+    static mut G: u64 = 1;
+    unsafe {
+        let c = libc::fork();
+        if c == 0 {
+            libc::ptrace(libc::PTRACE_TRACEME, 0, 0, 0);
+            libc::raise(libc::SIGSTOP);
+            if std::thread::Builder::new().spawn(|| loop { std::thread::park(); }).is_err() { libc::_exit(3); }
+            loop { libc::pause(); }
+        }
+        let mut st = 0;
+        let off = std::mem::offset_of!(libc::user, u_debugreg);
+        let mut res = None;
+        let mut tid: libc::pid_t = 0;
+        if libc::waitpid(c, &mut st, 0) == c && libc::WIFSTOPPED(st) {
+            libc::ptrace(libc::PTRACE_SETOPTIONS, c, 0, (libc::PTRACE_O_TRACECLONE | libc::PTRACE_O_EXITKILL) as u64);
+            libc::ptrace(libc::PTRACE_POKEUSER, c, off, &raw mut G as u64);
+            libc::ptrace(libc::PTRACE_POKEUSER, c, off + 56, (0x1u64 | (0x1 << 16) | (0x2 << 18) | 0x100) as u64);
+            libc::ptrace(libc::PTRACE_CONT, c, 0, 0);
+            for _ in 0..16 {
+                if libc::waitpid(c, &mut st, libc::__WALL) != c || !libc::WIFSTOPPED(st) { break; }
+                if (st >> 8) == (libc::SIGTRAP | (libc::PTRACE_EVENT_CLONE << 8)) {
+                    let mut t: libc::c_ulong = 0;
+                    libc::ptrace(libc::PTRACE_GETEVENTMSG, c, 0, &mut t as *mut libc::c_ulong);
+                    let t = t as libc::pid_t;
+                    tid = t;
+                    let mut st2 = 0;
+                    if t > 0 && libc::waitpid(t, &mut st2, libc::__WALL) == t && libc::WIFSTOPPED(st2) {
+                        let peek = |p: libc::pid_t, i: usize| { *libc::__errno_location() = 0; libc::ptrace(libc::PTRACE_PEEKUSER, p, off + 8 * i, 0) as u64 };
+                        res = Some((peek(c, 0), peek(c, 7), peek(t, 0), peek(t, 7)));
+                    }
+                    break;
+                }
+                // some other stop of the parent (a signal): pass it on
+                libc::ptrace(libc::PTRACE_CONT, c, 0, libc::WSTOPSIG(st) as u64);
+            }
+        }
+        libc::kill(c, libc::SIGKILL);
+        // the traced thread has to be reaped before its thread-group leader can be
+        if tid > 0 { libc::waitpid(tid, &mut st, libc::__WALL); }
+        libc::waitpid(c, &mut st, libc::__WALL);
+        res
+    }
+}
+
+/// a thread creation; half of them with the child's first stop forced ahead of the parent's clone event
+fn gen_clone(rng: &mut Rng, req: &mut Vec<String>, out: &mut Out) {
+    match rng.below(4) {
+        0..=1 => { req.push("C14 clone sf".into()); out.count("live.clone.sf", 1); }
+        2 => { req.push("C14 clone cf".into()); out.count("live.clone.cf", 1); }
+        _ => { req.push("C14 clone".into()); out.count("live.clone.any", 1); }
+    }
+}
+
 pub fn gen_session(rng: &mut Rng, out: &mut Out, hw: bool) -> Vec<String> {
     let mut req = vec!["C14 new live c14w".to_string()];
     let heavy = rng.chance(1, 3); // sessions that fill all four slots early
@@ -123,13 +190,13 @@ pub fn gen_session(rng: &mut Rng, out: &mut Out, hw: bool) -> Vec<String> {
     let n = k(rng); gen_ops(rng, &mut req, out, false, n);          // stage 0: globals only
     req.push("C14 go".into());
     let n = k(rng) + 1; gen_ops(rng, &mut req, out, true, n);       // stage 1: locals in scope
-    req.push("C14 clone".into());
+    gen_clone(rng, &mut req, out);
     let n = k(rng); gen_ops(rng, &mut req, out, true, n);
-    req.push("C14 clone".into());
+    gen_clone(rng, &mut req, out);
     let n = k(rng); gen_ops(rng, &mut req, out, true, n);
     req.push(format!("C14 scopeend {SCOPE_END}"));
     let n = k(rng); gen_ops(rng, &mut req, out, false, n);          // stage 4
-    req.push("C14 clone".into());
+    gen_clone(rng, &mut req, out);
     let n = rng.range(0, 2); gen_ops(rng, &mut req, out, false, n);
     match rng.below(6) {
         0..=1 => {}
@@ -143,10 +210,70 @@ pub fn gen_session(rng: &mut Rng, out: &mut Out, hw: bool) -> Vec<String> {
             let n = rng.range(0, 3); gen_ops(rng, &mut req, out, false, n);
             req.push("C14 go".into());
             let n = rng.range(0, 2); gen_ops(rng, &mut req, out, true, n);
-            req.push("C14 clone".into());
+            gen_clone(rng, &mut req, out);
         }
     }
     out.count("live.sessions", 1);
+    req
+}
+
+/// Restart sessions: watchpoints on locals are still set when the debuggee is restarted (c14w, c14x) or exits and is
+/// run again (c14x) — at least two of them adjacent in creation order, before / between / after watchpoints on
+/// globals; some are removed again first, a thread may be created on the way; the new process is then taken through
+/// the same stages once more (and sometimes restarted a second time).
+pub fn gen_restart_session(rng: &mut Rng, out: &mut Out) -> Vec<String> {
+    let exit = rng.chance(1, 2);
+    let prog = if exit || rng.chance(1, 3) { "c14x" } else { "c14w" };
+    let mut req = vec![format!("C14 new live {prog}")];
+    let mut round = 0;
+    // globals not watched yet (those watched survive the restarts and keep their slots)
+    let mut globals: Vec<(u64, &str, u64)> = GEN_GLOBALS.to_vec();
+    loop {
+        // stage 0: perhaps a global first
+        let mut locals: Vec<(u64, &str, u64)> = LOCALS.to_vec();
+        let take = |rng: &mut Rng, v: &mut Vec<(u64, &'static str, u64)>| { let i = rng.below(v.len() as u64) as usize; v.remove(i) };
+        let mut pattern = String::new();
+        let mut free = 4 - (GEN_GLOBALS.len() - globals.len()) as u64; // surviving globals keep their slots
+        if free < 2 { break; }
+        if round == 0 && rng.chance(1, 2) {
+            let (k, _, sz) = take(rng, &mut globals);
+            if rng.chance(1, 2) { req.push(format!("C14 wmem {} {sz} {}", 4096 * k, cond(rng))); } else { req.push(format!("C14 wexpr {k} {} {sz} {} -", 4096 * k, cond(rng))); }
+            pattern.push('G'); free -= 1;
+        }
+        req.push("C14 go".into());
+        // stage 1: a run of 2..=3 adjacent locals somewhere in a sequence of adds
+        let run = rng.range(2, 3).min(free);
+        let before = rng.below(2).min(free - run).min(globals.len() as u64);
+        let after = rng.below(3).min(free - run - before).min(globals.len() as u64 - before);
+        let add_global = |rng: &mut Rng, req: &mut Vec<String>, globals: &mut Vec<(u64, &'static str, u64)>| {
+            let i = rng.below(globals.len() as u64) as usize; let (k, _, sz) = globals.remove(i);
+            if rng.chance(1, 2) { req.push(format!("C14 wmem {} {sz} {}", 4096 * k, cond(rng))); } else { req.push(format!("C14 wexpr {k} {} {sz} {} -", 4096 * k, cond(rng))); }
+        };
+        for _ in 0..before { add_global(rng, &mut req, &mut globals); pattern.push('G'); }
+        for _ in 0..run { let (k, _, sz) = take(rng, &mut locals); req.push(format!("C14 wexpr {k} {} {sz} {} {SCOPE_END}", 4096 * k, cond(rng))); pattern.push('L'); }
+        for _ in 0..after {
+            if rng.chance(1, 3) && !locals.is_empty() { let (k, _, sz) = take(rng, &mut locals); req.push(format!("C14 wexpr {k} {} {sz} {} {SCOPE_END}", 4096 * k, cond(rng))); pattern.push('L'); }
+            else { add_global(rng, &mut req, &mut globals); pattern.push('G'); }
+        }
+        out.count(&format!("live.restart.pattern.{pattern}"), 1);
+        // sometimes one watchpoint goes again (by list position), or a request is refused (fifth / duplicate)
+        match rng.below(5) {
+            0 => { req.push(format!("C14 rmnum {}", rng.below(pattern.len() as u64))); out.count("live.restart.rm_before", 1); }
+            1 => gen_ops(rng, &mut req, out, true, 1),
+            _ => {}
+        }
+        if rng.chance(1, 2) { gen_clone(rng, &mut req, out); }
+        if exit && (round == 0 || rng.chance(1, 2)) { req.push("C14 exitrerun".into()); out.count("live.exitrerun", 1); }
+        else { req.push("C14 restart".into()); out.count("live.restart", 1); }
+        round += 1;
+        if round == 2 || rng.chance(2, 3) { break; }
+    }
+    // the new process: one more watchpoint, into the scope, a local, a thread
+    if rng.chance(1, 2) { gen_ops(rng, &mut req, out, false, 1); }
+    req.push("C14 go".into());
+    let n = rng.range(1, 2); gen_ops(rng, &mut req, out, true, n);
+    gen_clone(rng, &mut req, out);
+    out.count("live.sessions.restart", 1);
     req
 }
 
@@ -159,7 +286,17 @@ pub fn gen_requests(rng: &mut Rng, a: &Args, out: &mut Out) -> Vec<String> {
     req.extend(witness());
     let hw = hw_delivers();
     out.count(if hw { "live.hw_data_breakpoints_delivered" } else { "live.hw_data_breakpoints_NOT_delivered_on_this_machine" }, 1);
-    for _ in 0..sessions { req.extend(gen_session(rng, out, hw)); }
+    match kernel_new_thread_probe() {
+        Some((p0, p7, t0, t7)) => {
+            out.count(if t0 == 0 && t7 == p7 && p0 != 0 { "live.kernel_new_thread.dr0_cleared_dr7_as_parent(as_modelled)" } else { "live.kernel_new_thread.DIFFERS_FROM_THE_MODEL_ASSUMPTION" }, 1);
+            out.sample(json!({"kernel_new_thread_probe": {"parent_dr0": format!("{p0:#x}"), "parent_dr7": format!("{p7:#x}"), "new_thread_dr0": format!("{t0:#x}"), "new_thread_dr7": format!("{t7:#x}")}}));
+        }
+        None => out.count("live.kernel_new_thread.probe_failed", 1),
+    }
+    // two fifths of the sessions are restart sessions
+    for i in 0..sessions {
+        if i % 5 == 1 || i % 5 == 3 { req.extend(gen_restart_session(rng, out)); } else { req.extend(gen_session(rng, out, hw)); }
+    }
     req
 }
 
@@ -168,7 +305,7 @@ pub fn witness() -> Vec<String> {
     for k in 1..=4 { r.push(format!("C14 wmem {} 1 w", 4096 * k)); }
     r.push(format!("C14 wexpr 11 {} 8 w {SCOPE_END}", 4096 * 11));
     r.push("C14 clone".into());
-    r.push("C14 clone".into());
+    r.push("C14 clone sf".into());
     r.push(format!("C14 scopeend {SCOPE_END}"));
     r
 }
@@ -193,11 +330,11 @@ impl EventHook for Hook {
     fn on_process_install(&self, _: Pid, _: Option<&object::File>) {}
 }
 
-struct Worker {
+struct Worker<'a> {
     dbg: Debugger,
     ev: Rc<RefCell<Events>>,
     addrs: Arc<Mutex<HashMap<String, u64>>>,
-    tx: std::fs::File,
+    tx: &'a mut dyn FnMut(String),
     history: Vec<String>,
 }
 
@@ -206,13 +343,13 @@ fn peek_dr(tid: i32, i: usize) -> Option<u64> {
     nix::sys::ptrace::read_user(Pid::from_raw(tid), off as nix::sys::ptrace::AddressType).ok().map(|v| v as u64)
 }
 
-impl Worker {
+impl Worker<'_> {
     fn fail(&mut self, key: &str, what: String) {
         let j = json!({"key": key, "what": what, "replay": {"history": self.history}});
-        writeln!(self.tx, "F {j}").unwrap();
+        (self.tx)(format!("F {j}"));
     }
-    fn eval(&mut self) { writeln!(self.tx, "E 1").unwrap(); }
-    fn count(&mut self, k: &str) { writeln!(self.tx, "C {k}").unwrap(); }
+    fn eval(&mut self) { (self.tx)("E 1".into()); }
+    fn count(&mut self, k: &str) { (self.tx)(format!("C {k}")); }
 
     fn real_of(&self, abs: u64) -> Option<u64> {
         let k = abs / 4096;
@@ -227,7 +364,8 @@ impl Worker {
     }
     /// wait until the debuggee has reported the address of `name` (its stdout is read by another thread)
     fn wait_addr(&self, name: &str) {
-        for _ in 0..500 { if self.addrs.lock().unwrap().contains_key(name) { return; } std::thread::sleep(std::time::Duration::from_millis(1)); }
+        // (the line is in the pipe before the debuggee reaches the sync point; the reader thread may be starved on a loaded machine)
+        for _ in 0..20000 { if self.addrs.lock().unwrap().contains_key(name) { return; } std::thread::sleep(std::time::Duration::from_millis(1)); }
     }
 
     /// register files of all threads as read by the harness + API view + companions; runs the oracle
@@ -365,12 +503,23 @@ impl Worker {
                 let r = self.dbg.remove_watchpoint_by_expr(Dqe::Variable(Selector::by_name(cand.1, local))).map(|o| o.is_some());
                 self.rm_result(r)
             }
-            ["go"] | ["clone"] => {
+            ["go"] | ["clone"] | ["clone", "cf"] | ["clone", "sf"] => {
                 let n_before = self.nthreads();
-                match self.cont() {
+                let forced = t.len() == 2 && t[1] == "sf";
+                let _ = ipose::clone_order::take_counts();
+                if forced { ipose::clone_order::arm_child_first(1); }
+                let r = self.cont();
+                ipose::clone_order::disarm();
+                let (cf, sf_nat, sf_forced) = ipose::clone_order::take_counts();
+                if cf > 0 { self.count("live.clone.observed.clone-event-first"); }
+                if sf_nat > 0 { self.count("live.clone.observed.child-stop-first-by-itself"); }
+                if sf_forced > 0 { self.count("live.clone.observed.child-stop-first-forced"); }
+                match r {
                     Ok(stops) if stops.is_empty() => {
                         let want = n_before + if t[0] == "clone" { 1 } else { 0 };
                         if self.nthreads() != want { self.fail("abstraction-mismatch", format!("{} -> {} threads after `{}`", n_before, self.nthreads(), t[0])); }
+                        if t[0] == "clone" && cf + sf_nat + sf_forced != 1 { self.fail("abstraction-mismatch", format!("`{}`: {} clone events seen by waitpid(-1)", t.join(" "), cf + sf_nat + sf_forced)); }
+                        if forced && sf_nat + sf_forced != 1 { self.fail("abstraction-mismatch", "`clone sf`: the child's first stop could not be delivered ahead of the clone event".into()); }
                         if t[0] == "go" { self.wait_addr("l5"); }
                         self.dump("done")
                     }
@@ -439,15 +588,60 @@ impl Worker {
                 }
             }
             ["restart"] => {
-                self.addrs.lock().unwrap().retain(|k, _| !k.starts_with('l'));
+                let before = self.listed();
+                self.addrs.lock().unwrap().clear();
                 let r = std::panic::catch_unwind(std::panic::AssertUnwindSafe(|| self.dbg.restart_debugee()));
-                match r {
-                    Ok(Ok(_)) => { self.wait_addr("G6"); self.dump("done") }
-                    Ok(Err(_)) => self.dump("error"),
-                    Err(_) => self.dump("panic"),
+                let res = match r { Ok(Ok(_)) => "done", Ok(Err(_)) => "error", Err(_) => "panic" };
+                self.wait_addr("G6");
+                self.restart_oracle("restart", &before);
+                self.dump(res)
+            }
+            ["exitrerun"] => {
+                let before = self.listed();
+                // run until the debuggee is gone (it exits inside the scope of its locals; breakpoints on the way are passed)
+                let mut exited = false;
+                let mut err = None;
+                for _ in 0..8 {
+                    match self.cont() {
+                        Ok(stops) => if stops.last().map(|s| s.starts_with("exit")).unwrap_or(false) { exited = true; break; },
+                        Err(e) => { err = Some(e); break; }
+                    }
                 }
+                if !exited {
+                    if err.is_none() { self.fail("abstraction-mismatch", "the debuggee did not exit".into()); }
+                    return self.dump(&err.unwrap_or("no-exit".into()).replace(' ', "-"));
+                }
+                // between the two runs: what the debugger lists
+                self.restart_oracle("exit", &before);
+                let mid: Vec<String> = self.listed().iter().map(|w| format!("{}:{}:{}:{}", w.0, w.1, w.2, if w.3 { "s" } else { "g" })).collect();
+                self.addrs.lock().unwrap().clear();
+                let r = std::panic::catch_unwind(std::panic::AssertUnwindSafe(|| self.dbg.start_debugee_force()));
+                let res = match r { Ok(Ok(_)) => "done", Ok(Err(_)) => "error", Err(_) => "panic" };
+                self.wait_addr("G6");
+                self.restart_oracle("exit-and-rerun", &before);
+                let d = self.dump(res);
+                format!("exited {} # {d}", enc_list(&mid, |s| s.clone()))
             }
             _ => "bad-op".into(),
+        }
+    }
+    /// the API's watchpoint list in abstract terms: (abstract address, bytes, condition, on a local?)
+    fn listed(&self) -> Vec<(String, u64, String, bool)> {
+        self.dbg.watchpoint_list().iter().map(|w| {
+            let local = w.source_dqe.as_ref().map(|n| LOCALS.iter().any(|c| c.1 == n.as_ref())).unwrap_or(false);
+            (self.abs_of(w.address.as_usize() as u64), match w.size { BreakSize::Bytes1 => 1, BreakSize::Bytes2 => 2, BreakSize::Bytes4 => 4, BreakSize::Bytes8 => 8 }, w.condition.to_string(), local)
+        }).collect()
+    }
+    /// ---- O: across a restart / an exit / an exit followed by a new run, exactly the watchpoints on globals remain
+    /// (the harness knows which candidates are locals; the registers of the new process are checked by `dump`)
+    fn restart_oracle(&mut self, what: &str, before: &[(String, u64, String, bool)]) {
+        self.eval();
+        let after = self.listed();
+        let want: Vec<&(String, u64, String, bool)> = before.iter().filter(|w| !w.3).collect();
+        if let Some(l) = after.iter().find(|w| w.3) {
+            self.fail("local-watchpoint-survives-restart", format!("after {what} the watchpoint list still holds a watchpoint on a local ({}): before {before:?}, after {after:?}", l.0));
+        } else if after.iter().collect::<Vec<_>>() != want {
+            self.fail("global-watchpoints-not-kept-across-restart", format!("after {what} the watchpoint list is {after:?}, the watchpoints on globals before it were {want:?}"));
         }
     }
     fn nthreads(&self) -> usize {
@@ -461,12 +655,12 @@ impl Worker {
     }
 }
 
-fn stage_lines() -> Vec<u64> {
-    let src = std::fs::read_to_string(root().join("progs-src/c14w.rs")).unwrap();
+fn stage_lines(prog: &str) -> Vec<u64> {
+    let src = std::fs::read_to_string(root().join(format!("progs-src/{prog}.rs"))).unwrap();
     src.lines().enumerate().filter(|(_, l)| l.contains("// STAGE")).map(|(i, _)| i as u64 + 1).collect()
 }
 
-fn worker_main(prog: PathBuf, lines: Vec<String>, tx: std::fs::File) {
+fn worker_main(prog: PathBuf, lines: &[String], tx: &mut dyn FnMut(String)) {
     let (reader, writer) = os_pipe::pipe().unwrap();
     let addrs: Arc<Mutex<HashMap<String, u64>>> = Default::default();
     let a2 = addrs.clone();
@@ -480,6 +674,8 @@ fn worker_main(prog: PathBuf, lines: Vec<String>, tx: std::fs::File) {
         }
     });
     std::panic::set_hook(Box::new(|_| {}));
+    ipose::clone_order::track();
+    let prog_name = prog.file_name().unwrap().to_str().unwrap().to_string();
     rust::Environment::init(None);
     let runner = Child::new(prog.to_str().unwrap(), Vec::<String>::new(), None::<&std::path::Path>, writer.try_clone().unwrap(), writer);
     let process = runner.install().unwrap();
@@ -491,7 +687,7 @@ fn worker_main(prog: PathBuf, lines: Vec<String>, tx: std::fs::File) {
         let t: Vec<&str> = line.split(' ').filter(|x| !x.is_empty()).collect();
         let ans = if i == 0 {
             let mut ok = true;
-            for l in stage_lines() { ok &= w.dbg.set_breakpoint_at_line("c14w.rs", l).is_ok(); }
+            for l in stage_lines(&prog_name) { ok &= w.dbg.set_breakpoint_at_line(&format!("{prog_name}.rs"), l).is_ok(); }
             let r = w.dbg.start_debugee();
             w.wait_addr("G6");
             for c in GEN_GLOBALS { if w.real_of(4096 * c.0).map(|a| a % 8 != 0).unwrap_or(true) { w.fail("abstraction-mismatch", format!("{} is not 8-aligned / not reported", c.1)); } }
@@ -502,53 +698,51 @@ fn worker_main(prog: PathBuf, lines: Vec<String>, tx: std::fs::File) {
         } else { "bad-op".into() };
         if i > 0 { w.count(&format!("live.ans.{}", ans.split(' ').next().unwrap_or(""))); }
         if std::env::var("C14_TRACE").is_ok() { eprintln!("[{:?}] {line} -> {}", std::time::SystemTime::now().duration_since(std::time::UNIX_EPOCH).unwrap().as_millis() % 100000, &ans[..ans.len().min(40)]); }
-        writeln!(w.tx, "A {ans}").unwrap();
+        (w.tx)(format!("A {ans}"));
     }
-    let _ = w.tx.flush();
     // leave without running destructors that could block; the debuggee dies with us (PTRACE_O_EXITKILL) or is killed here
     let pid = w.dbg.process().pid();
     let _ = nix::sys::signal::kill(pid, Signal::SIGKILL);
     unsafe { libc::_exit(0) }
 }
 
-/// run one live session (request lines `lines`, the first being `C14 new live ...`) in a forked worker
-pub fn run_session(lines: &[String], out: &mut Out) {
-    let prog = match ensure_prog() { Ok(p) => p, Err(e) => { for l in lines { out.pair(l.clone(), format!("no-debuggee")); } eprintln!("c14: cannot build debuggee: {e}"); return; } };
-    let mut fds = [0i32; 2];
-    unsafe { libc::pipe(fds.as_mut_ptr()); }
-    let pid = unsafe { libc::fork() };
-    if pid == 0 {
-        unsafe { libc::close(fds[0]); libc::setpgid(0, 0); libc::fcntl(fds[1], libc::F_SETFD, libc::FD_CLOEXEC); }
-        let tx = unsafe { std::fs::File::from_raw_fd(fds[1]) };
-        // silence the library's logging / the debuggee's output
-        worker_main(prog, lines.to_vec(), tx);
-        unreachable!();
+/// Run the live sessions (request lines of each, the first being `C14 new live <prog>`), one forked worker per
+/// session, at most four at a time (`live::run_sessions`: load-aware watchdog, a session that times out is run once
+/// more alone).  Returns per session the raw lines of its worker and how it ended.
+pub fn run_live_sessions(sessions: &[Vec<String>], tmpdir: &std::path::Path) -> Vec<(Vec<String>, String)> {
+    if sessions.is_empty() { return vec![]; }
+    // compile the debuggees before any worker exists
+    let mut progs: HashMap<String, Result<PathBuf, String>> = HashMap::new();
+    for s in sessions {
+        let name = s[0].split(' ').nth(3).unwrap_or("c14w").to_string();
+        progs.entry(name.clone()).or_insert_with(|| ensure_prog(&name));
     }
-    unsafe { libc::close(fds[1]); }
-    let mut rx = unsafe { std::fs::File::from_raw_fd(fds[0]) };
-    // watchdog: kill the worker's process group after 60 s
-    let wd = std::thread::spawn(move || {
-        for _ in 0..600 {
-            std::thread::sleep(std::time::Duration::from_millis(100));
-            let mut st = 0;
-            if unsafe { libc::waitpid(pid, &mut st, libc::WNOHANG) } == pid { return; }
+    for (n, r) in &progs { if let Err(e) = r { eprintln!("c14: cannot build debuggee {n}: {e}"); } }
+    let par = crate::live::par_default().min(4);
+    let limit = crate::live::session_timeout().max(60);
+    crate::live::run_sessions(sessions, tmpdir, "c14", par, limit, |s, emit| {
+        let name = s[0].split(' ').nth(3).unwrap_or("c14w");
+        match progs.get(name) {
+            Some(Ok(p)) => worker_main(p.clone(), s, emit),
+            _ => for _ in s.iter() { emit("A no-debuggee".into()); },
         }
-        unsafe { libc::kill(-pid, libc::SIGKILL); libc::kill(pid, libc::SIGKILL); let mut st = 0; libc::waitpid(pid, &mut st, 0); }
-    });
-    let t0 = std::time::Instant::now();
-    let mut buf = String::new();
-    let _ = rx.read_to_string(&mut buf);
-    if t0.elapsed().as_secs() > 10 { eprintln!("c14: slow live session ({} s):\n{}", t0.elapsed().as_secs(), lines.join("\n")); }
-    let _ = wd.join();
+    })
+}
+
+/// put the lines a worker produced into the run's output: answers pair up with the request lines, oracle failures,
+/// evaluations and counters are booked
+pub fn account(lines: &[String], result: (Vec<String>, String), out: &mut Out) {
+    let (raw, how) = result;
     let mut answers = vec![];
-    for l in buf.lines() {
+    for l in &raw {
         if let Some(a) = l.strip_prefix("A ") { answers.push(a.to_string()); }
         else if let Some(f) = l.strip_prefix("F ") { if let Ok(v) = serde_json::from_str::<serde_json::Value>(f) { out.oracle_fail(v["key"].as_str().unwrap_or("?"), v["what"].as_str().unwrap_or("?"), v["replay"].clone()); } }
         else if l.starts_with("E ") { out.oracle_evals += 1; }
         else if let Some(k) = l.strip_prefix("C ") { out.count(k, 1); }
     }
+    if how != "ok" && answers.len() < lines.len() { eprintln!("c14: live session ended with {how} after {} of {} commands:\n{}", answers.len(), lines.len(), lines.join("\n")); }
     for (i, l) in lines.iter().enumerate() {
-        let a = answers.get(i).cloned().unwrap_or_else(|| "worker-died".to_string());
+        let a = answers.get(i).cloned().unwrap_or_else(|| format!("worker-died"));
         if i > 0 && out.samples.len() < 5 { out.sample(json!({"request": l, "answer": a})); }
         out.pair(l.clone(), a);
     }
